@@ -1,6 +1,7 @@
 """C05 - nested members are converted by their own type's rules (member-wise composition, routing, source shapes)."""
 from __future__ import annotations
 
+import inspect
 import json
 import warnings
 
@@ -17,7 +18,7 @@ RULE = ("synthesised module sets with adversarial naming (small shared pool of f
         "class name defined in two modules and both reachable from one root, diamond sharing, aliases/NewTypes as members); at EVERY "
         "composite node of every root (collection, fixed tuple, mapping, structured class) the routine's result on a member-wise "
         "decomposed input is compared with the composite rebuilt from independently obtained member routines, for unmarshal (wire "
-        "forms, with one member corrupted for exception parity) and marshal (valid values); structured sources in four shapes (mapping, "
+        "forms, with one member corrupted for exception parity) and marshal (valid values); structured sources in their shapes (instance of the target class itself or of a subclass holding unconverted values, mapping, "
         "iterable of pairs, JSON text, instance of a sibling class) must convert alike; 'will default to no-op' warnings for resolvable "
         "hints are violations; one evaluation = one composite node x input; distinct = (node source, canonical input)")
 ASSUMPTIONS = [
@@ -27,9 +28,9 @@ ASSUMPTIONS = [
 ]
 PLAN = {"quick": dict(programs=4000, values=3, depth=3), "thorough": dict(programs=30000, values=6, depth=5)}
 FLOORS = {"quick": {"unmarshal_nodes_compared": 70000, "marshal_nodes_compared": 70000, "exception_parity_checked": 100000, "shape_sets_compared": 30000,
-                    "same_name_two_modules": 800, "builds_watched_for_warnings": 6000},
+                    "same_name_two_modules": 800, "builds_watched_for_warnings": 6000, "own_class_instance_sources": 20000},
           "thorough": {"unmarshal_nodes_compared": 1500000, "marshal_nodes_compared": 1500000, "exception_parity_checked": 600000,
-                       "shape_sets_compared": 150000, "same_name_two_modules": 8000, "builds_watched_for_warnings": 55000}}
+                       "shape_sets_compared": 150000, "same_name_two_modules": 8000, "builds_watched_for_warnings": 55000, "own_class_instance_sources": 100000}}
 COMPOSITE = ("coll", "fixed", "mapping", "struct")
 
 
@@ -238,6 +239,18 @@ def check_node(sh, spec, v, prog, rng):
             sv = SibVars()
             sv.__dict__.update(ns)
             shapes.append(("sibling-plain-object", sv))
+            # an instance of the target class itself / of a subclass of it, holding the not-yet-converted wire values
+            if spec.info.get("flavour") not in ("typeddict", "typeddict_partial", "typeddict_notrequired") and inspect.isclass(T):
+                try:
+                    own = T(**ns)
+                    Sub = type("Sub_" + spec.info["name"], (T,), {})
+                    sub = Sub(**ns)
+                except Exception:  # noqa: BLE001  (constructors that validate / cannot be subclassed)
+                    sh.count("own_instance_not_constructible")
+                else:
+                    shapes.append(("own-class-instance-holding-wire-values", own))
+                    shapes.append(("subclass-instance-holding-wire-values", sub))
+                    sh.count("own_class_instance_sources")
         if w:  # an empty pair list is indistinguishable from an empty sequence
             sh.count("shape_sets_compared")
             for name, x in shapes:
